@@ -204,6 +204,23 @@ def check_pipe(ctx, legs, qconj, sort, bunch, case, deep=True):
         except Exception as e:
             import traceback
             ctx.violation('combine_split:raises-%s' % type(e).__name__, traceback.format_exc()[-600:], case)
+    # tensors without any stored block (the zero tensor of a sector): the round trip must give a usable zero tensor again
+    if len(legs) >= 2 and ctx.rng.random() < 0.3:
+        qt0 = list(totals[int(ctx.rng.integers(len(totals)))]) if totals else [0] * len(mod)
+        try:
+            a = npc.zeros(legs, np.float64, qtotal=qt0, labels=['l%d' % k for k in range(len(legs))])
+            c = a.combine_legs([list(range(len(legs)))], pipes=[P])
+            s_ = c.split_legs()
+            ctx.count('monitor.zero_tensor_roundtrips')
+            for kind, what in tshadow.array_invariants(c) + tshadow.array_invariants(s_):
+                ctx.violation('combine_split:no-stored-blocks:%s' % kind, what, case)
+            diff = s_ - a  # (uses the block bookkeeping of both operands)
+            t_ = s_.transpose(list(range(len(legs)))[::-1])
+            if diff.shape != a.shape or npc.norm(diff) != 0 or t_.shape != tuple(a.shape[::-1]) or npc.norm(s_ + a) != 0:
+                ctx.violation('combine_split:no-stored-blocks:result-not-the-zero-tensor', '', case)
+        except Exception as e:
+            import traceback
+            ctx.violation('combine_split:no-stored-blocks:raises-%s' % type(e).__name__, traceback.format_exc()[-600:], case)
     return P
 
 
